@@ -7,9 +7,11 @@
 (* A call on an instance that was re-opened (fresh) starts at cursor 0; the  *)
 (* harness reports the cursor it observed before the call ("before").        *)
 (***************************************************************************)
-EXTENDS IsoCursor, Json, TLC
+EXTENDS IsoCursor, VirtualIso, Json, TLC
 
 Trace == ndJsonDeserialize("trace.ndjson")
+
+CONSTANT Mode   \* "content" (C07: Represents) | "structure" (C08: ValidVolume) | "both"
 
 VARIABLES l, total, pos, ok
 
@@ -29,7 +31,7 @@ TraceOpen ==
             /\ e.total = e.announced
             /\ e.total[2] = 0
             /\ total' = e.total /\ pos' = PZero /\ ok' = TRUE
-       ELSE /\ e.mustOpen = FALSE
+       ELSE /\ OpenMayFail(e.tree, e.ps3)
             /\ total' = PZero /\ pos' = PZero /\ ok' = FALSE
 
 TraceOp ==
@@ -45,7 +47,28 @@ TraceOp ==
         /\ pos' = e.tell
   /\ UNCHANGED <<total, ok>>
 
-TraceNext == TraceOpen \/ TraceOp
+(* C07 / C08: the decoded volume is a valid ISO 9660 + Joliet (+PS3) volume   *)
+(* and contains exactly the tree.  The names of the violated clauses are      *)
+(* printed (<<"FAILED", case, clauses>>) before the event is rejected.        *)
+TraceVolume ==
+  /\ IsEvent("Volume")
+  /\ LET e == Trace[l]
+         failed == IF Mode = "content" THEN {} ELSE FailedClauses(e.vol, e.ps3, e.titleId)
+         fc == IF Mode # "structure" /\ e.vol.decodeErrors = << >> THEN FailedContent(e.vol, e.tree)
+               ELSE IF Mode # "structure" THEN {"NoDecodeErrors"} ELSE {}
+     IN /\ (failed \cup fc # {} => PrintT(<<"FAILED", e.name, failed \cup fc>>))
+        /\ failed = {} /\ fc = {}
+  /\ UNCHANGED <<total, pos, ok>>
+
+(* C18: a further open of the same unchanged directory gives an image of the  *)
+(* same size that differs from the first only in the documented variable      *)
+(* fields (the harness lists differing byte ranges outside VarFields).        *)
+TraceReopen ==
+  /\ IsEvent("Reopen")
+  /\ LET e == Trace[l] IN e.err = "" /\ e.size = e.first /\ e.diffs = << >>
+  /\ UNCHANGED <<total, pos, ok>>
+
+TraceNext == TraceOpen \/ TraceOp \/ TraceVolume \/ TraceReopen
 
 HwmConstraint == TLCSet(1, IF TLCGet(1) < l - 1 THEN l - 1 ELSE TLCGet(1))
 TraceAccepted ==
